@@ -31,6 +31,16 @@ type generator struct {
 	conf   *config.Converter
 	lookup *method.Index[generatedMethod]
 	extend *method.Index[method.Definition]
+	// callers records which methods call a generated method, so that they are rebuilt
+	// when the signature of the called method changes (error result, context argument).
+	callers map[*method.Definition]map[method.IndexID]struct{}
+}
+
+// markCallersDirty flags every method that was built with a call to def for a rebuild.
+func (g *generator) markCallersDirty(def *method.Definition) {
+	for id := range g.callers[def] {
+		g.lookup.ByID(id).Dirty = true
+	}
 }
 
 func (g *generator) getGenMethods() []*generatedMethod {
@@ -305,6 +315,13 @@ func (g *generator) CallMethod(
 		return nil, nil, formatErr(cause)
 	}
 
+	if definition.Generated {
+		if g.callers[definition] == nil {
+			g.callers[definition] = map[method.IndexID]struct{}{}
+		}
+		g.callers[definition][ctx.IndexID] = struct{}{}
+	}
+
 	qual := g.qualMethod(definition)
 	if definition.ReturnError {
 		name := ctx.Name(target.ID())
@@ -337,6 +354,7 @@ func (g *generator) ReturnError(ctx *builder.MethodContext, errPath builder.Erro
 			if !check.ReturnError {
 				check.ReturnError = true
 				check.Dirty = true
+				g.markCallersDirty(check.Definition)
 			}
 		}
 	}
@@ -355,23 +373,35 @@ func (g *generator) requireContext(ctx *builder.MethodContext, need *xtype.Type)
 
 	current := g.lookup.ByID(ctx.IndexID)
 	for _, path := range append([]method.IndexID{ctx.IndexID}, current.OriginPath...) {
-		check := g.lookup.ByID(path)
-
-		if _, ok := check.Context[need.String]; ok {
-			continue
-		}
-
-		if check.Explicit {
+		if !g.addContext(g.lookup.ByID(path), need) {
 			return false
 		}
+	}
+	return true
+}
 
-		check.Context[need.String] = need
-		check.RawArgs = append(check.RawArgs, method.Arg{
-			Name: "",
-			Use:  method.ArgUseContext,
-			Type: need,
-		})
-		check.Dirty = true
+// addContext adds the context argument to a generated method and to the generated methods
+// that were already built with a call to it (they have to pass the argument on).
+func (g *generator) addContext(check *generatedMethod, need *xtype.Type) bool {
+	if _, ok := check.Context[need.String]; ok {
+		return true
+	}
+
+	if check.Explicit {
+		return false
+	}
+
+	check.Context[need.String] = need
+	check.RawArgs = append(check.RawArgs, method.Arg{
+		Name: "",
+		Use:  method.ArgUseContext,
+		Type: need,
+	})
+	check.Dirty = true
+	for id := range g.callers[check.Definition] {
+		if caller := g.lookup.ByID(id); !g.addContext(caller, need) {
+			caller.Dirty = true
+		}
 	}
 	return true
 }
